@@ -5,8 +5,25 @@ use miette::{miette, LabeledSpan, Report, Severity};
 use crate::{
     lexer::{Token, TokenKind},
     parser::Bits,
-    symbol::Span,
+    symbol::{Span, SrcOffset},
 };
+
+/// Rendering pads lines using columns as formatting widths, and those are limited to 16 bits (beyond that the formatting
+/// machinery panics). A label which starts, or extends, that far into its line is attached to the start of the line instead.
+const MAX_LABEL_COLUMN: usize = 16_000;
+
+fn label_at(span: Span, src: &str, text: impl Into<String>) -> LabeledSpan {
+    let offs = span.offs().min(src.len());
+    let line_start = src.as_bytes()[..offs]
+        .iter()
+        .rposition(|byte| *byte == b'\n')
+        .map_or(0, |newline| newline + 1);
+    if offs - line_start > MAX_LABEL_COLUMN || span.len() > MAX_LABEL_COLUMN {
+        LabeledSpan::at_offset(line_start, text.into())
+    } else {
+        LabeledSpan::at(span, text.into())
+    }
+}
 
 // Lexer errors
 
@@ -15,7 +32,7 @@ pub fn lex_invalid_dir(span: Span, src: &'static str) -> Report {
         severity = Severity::Error,
         code = "lex::dir",
         help = "check the list of available directives in the documentation.",
-        labels = vec![LabeledSpan::at(span, "incorrect directive")],
+        labels = vec![label_at(span, src, "incorrect directive")],
         "Encountered an invalid directive.",
     )
     .with_source_code(src)
@@ -26,7 +43,7 @@ pub fn lex_unclosed_str(span: Span, src: &'static str) -> Report {
         severity = Severity::Error,
         code = "lex::str_lit",
         help = "make sure to close string literals with a \" character.",
-        labels = vec![LabeledSpan::at(span, "incorrect literal")],
+        labels = vec![label_at(span, src, "incorrect literal")],
         "Encountered an unterminated string literal.",
     )
     .with_source_code(src)
@@ -37,7 +54,7 @@ pub fn lex_invalid_lit(span: Span, src: &'static str, e: ParseIntError) -> Repor
         severity = Severity::Error,
         code = "lex::bad_lit",
         help = "ranges from -32,768 to 32,767 or 0 to 65,535 are allowed",
-        labels = vec![LabeledSpan::at(span, "incorrect literal")],
+        labels = vec![label_at(span, src, "incorrect literal")],
         "Encountered an invalid literal: {e}",
     )
     .with_source_code(src)
@@ -48,7 +65,7 @@ pub fn lex_unknown(span: Span, src: &'static str) -> Report {
         severity = Severity::Error,
         code = "lex::unknown",
         help = "make sure that your int literals start with #",
-        labels = vec![LabeledSpan::at(span, "unknown token")],
+        labels = vec![label_at(span, src, "unknown token")],
         "Encountered an unknown token",
     )
     .with_source_code(src)
@@ -63,7 +80,7 @@ pub fn lex_stack_extension_not_enabled(instr: &str, span: Span, src: &'static st
         run with `-f stack` to enable feature\n\
         note: this identifier cannot be used as a label\
         ",
-        labels = vec![LabeledSpan::at(span, "non-standard instruction")],
+        labels = vec![label_at(span, src, "non-standard instruction")],
         "Non-standard '{}' instruction used without 'stack' extension enabled",
         instr
     )
@@ -90,7 +107,7 @@ pub fn preproc_bad_lit(span: Span, src: &'static str, is_present: bool) -> Repor
         severity = severity,
         code = "preproc::bad_lit",
         help = help,
-        labels = vec![LabeledSpan::at(span, label)],
+        labels = vec![label_at(span, src, label)],
         "Expected valid integer or hex literal",
     )
     .with_source_code(src)
@@ -101,7 +118,7 @@ pub fn preproc_no_str(span: Span, src: &'static str) -> Report {
         severity = Severity::Error,
         code = "preproc::stringz",
         help = ".stringz requires a valid string literal like \"hello\\n\"",
-        labels = vec![LabeledSpan::at(span, "not a string literal")],
+        labels = vec![label_at(span, src, "not a string literal")],
         "Expected a valid string literal",
     )
     .with_source_code(src)
@@ -114,7 +131,7 @@ pub fn parse_duplicate_label(span: Span, src: &'static str) -> Report {
         severity = Severity::Error,
         code = "parse::duplicate_label",
         help = "prefix labels are only allowed once per file",
-        labels = vec![LabeledSpan::at(span, "duplicate label")],
+        labels = vec![label_at(span, src, "duplicate label")],
         "Duplicate prefix label"
     )
     .with_source_code(src)
@@ -132,8 +149,9 @@ pub fn parse_generic_unexpected(src: &'static str, expected: &str, found: Token)
         severity = Severity::Error,
         code = "parse::unexpected_token",
         help = help,
-        labels = vec![LabeledSpan::at(
+        labels = vec![label_at(
             found.span,
+            src,
             format!("unexpected {}", found.kind)
         )],
         "Expected token of type {expected}, found {}",
@@ -148,7 +166,7 @@ pub fn parse_eof(src: &'static str) -> Report {
         severity = Severity::Error,
         code = "parse::unexpected_eof",
         help = "you may be missing operands in your last statement",
-        labels = vec![LabeledSpan::at_offset(offset, "here")],
+        labels = vec![label_at(Span::new(SrcOffset(offset), 0), src, "here")],
         "Unexpected end of file",
     )
     .with_source_code(src)
@@ -159,7 +177,7 @@ pub fn parse_lit_range(span: Span, src: &'static str, bits: Bits) -> Report {
         severity = Severity::Error,
         code = "parse::unexpected_token",
         help = format!("this instruction expects literals that can be contained in {bits} bits",),
-        labels = vec![LabeledSpan::at(span, "out-of-range literal")],
+        labels = vec![label_at(span, src, "out-of-range literal")],
         "Found numeric literal of incorrect size"
     )
     .with_source_code(src)
